@@ -79,6 +79,10 @@ structure MsgSt where
   discarded : Bool := false                          -- bounce of a #@[] message discarded (documented)
   lost : Bool := false                               -- bounce/<m> content lost in a machine crash (documented exemption)
   lastInject : Bool := false                         -- the last injection of the current bounce file succeeded
+  -- the two documented exemptions, per record (the flags `discarded` / `lost` above are message-wide summaries
+  -- kept for C14's daemon layer; the accounting theorems of C03 use these lists)
+  droppedRecs : List (Ch × Nat) := []                -- paragraphs that were in bounce/<m> of a `#@[]` message when the file was discarded
+  lostRecs : List (Ch × Nat) := []                   -- paragraphs that were in bounce/<m> when a crash damaged the file
 
 def MsgSt.chan (m : MsgSt) : Ch → Option (List Rec)
   | .loc => m.loc
@@ -129,6 +133,8 @@ structure St where
   mayMark : List (Nat × Ch × Nat) := [] -- records that may be marked D now
   clean : Option CleanReq := none
   clock : Nat := 0
+  cut : List Nat := []                  -- messages with a report awaiting its bounce paragraph when the daemon last died
+                                        -- (`addbounce` may have been cut short: bounce/<m> created or partly written)
 
 def tabGet : List (Nat × MsgSt) → Nat → MsgSt
   | [], _ => {}
@@ -442,14 +448,16 @@ def accept (cfg : Cfg) (s : St) : Ev → Option St
     | some info, some _ =>
       let sender := (info.drop 1).dropLast
       if ms.todo.isNone ∧ ms.loc.isNone ∧ ms.rem.isNone then
-        if sender = [35, 64, 91, 93] then some (s.upd m fun ms => { ms with bounce := none, inFile := [], discarded := true })
+        if sender = [35, 64, 91, 93] then
+          some (s.upd m fun ms => { ms with bounce := none, inFile := [], discarded := true, droppedRecs := ms.inFile ++ ms.droppedRecs })
         else if ms.lastInject then some (s.upd m fun ms => { ms with bounce := none, bounced := ms.inFile ++ ms.bounced, inFile := [] })
         else none
       else none
     | _, _ => none
   | .utimes m c _ => if s.clean.isNone ∧ ((s.msg m).chan c).isSome then some s else none
   | .tick t => if s.clock ≤ t then some { s with clock := t } else none
-  | .restart => some { s with slots := [], dlineLoc := ([], 0), dlineRem := ([], 0), notes := [], mayMark := [], clean := none }
+  | .restart => some { s with slots := [], dlineLoc := ([], 0), dlineRem := ([], 0), notes := [], mayMark := [], clean := none,
+                              cut := s.notes.map (·.m) }
   | .crashMarks m c marks =>
     let ms := s.msg m
     match ms.chan c with
@@ -460,8 +468,13 @@ def accept (cfg : Cfg) (s : St) : Ev → Option St
         some (s.upd m fun ms => ms.setChan c (some ((rs.zip marks).map fun (r, d) => { r with done := d })))
       else none
   | .crashBounce m content =>
-    if s.clean.isNone ∧ s.slots.isEmpty ∧ ((s.msg m).bounce.isSome ∨ ((s.msg m).todo.isNone ∧ (s.msg m).info.isSome)) then
-      some (s.upd m fun ms => { ms with bounce := some content, lost := true, lastInject := false })
+    -- after a crash bounce/<m> (never fsynced) has this content.  The file exists in the model, or the daemon died between a
+    -- `D` report and the end of its `addbounce` (then the file may just have been created / partly written).  The paragraphs
+    -- that were in the file are exempt (`lostRecs`) unless the old content is still there as a prefix (nothing was lost).
+    if s.clean.isNone ∧ s.slots.isEmpty ∧
+       ((s.msg m).bounce.isSome ∨ ((s.msg m).todo.isNone ∧ (s.msg m).info.isSome ∧ s.cut.contains m)) then
+      some (s.upd m fun ms => { ms with bounce := some content, lost := true, lastInject := false,
+                                         lostRecs := (if (ms.bounce.getD []).isPrefixOf content then [] else ms.inFile) ++ ms.lostRecs })
     else none
   | .crashTodoFiles m =>
     if s.clean.isNone ∧ s.slots.isEmpty ∧ (s.msg m).todo.isSome then
